@@ -16,7 +16,9 @@
 //!   `remote_closed`: the other end observed the connection going away (R's connection task reports
 //!            ConnectionClosed, R's dial fails, the bare socket reads EOF) within 10 s,
 //!   `later`: number of events L emitted for c after the decision (must be 0).
-//! An accepted connection must NOT be observed closing within 150 ms.
+//! An accepted connection must NOT be observed closing within 150 ms, nor by the end of the case (last
+//! number of the trace: accepted connections the remote end saw closing — later rejections must not
+//! disturb them).
 use super::*;
 use litep2p::{
     crypto::ed25519::Keypair,
@@ -146,6 +148,8 @@ struct SockWorld {
     /// everything L emitted so far
     l_events: Vec<VerifSockEvent>,
     r_seen: Vec<RObs>,
+    /// R's ids of the connections L accepted
+    accepted_r: Vec<usize>,
 }
 
 impl SockWorld {
@@ -289,6 +293,9 @@ impl SockWorld {
         };
         let remote_closed = if accepted {
             // must stay open: nothing for 150 ms
+            if let Some(id) = r_conn {
+                self.accepted_r.push(id);
+            }
             self.wait(150, gone).await as u64
         } else if let Some(mut s) = bare.take() {
             use tokio::io::AsyncReadExt;
@@ -320,10 +327,15 @@ pub fn run(tr: u64, conns: &[Conn]) -> Vec<u64> {
         let (ctx, crx) = mpsc::unbounded_channel();
         let (otx, orx) = mpsc::unbounded_channel();
         let task = tokio::spawn(remote_task(r, crx, otx));
-        let mut w = SockWorld { l, l_addr, r_addr, r_peer, r_cmd: ctx, r_obs: orx, l_events: Vec::new(), r_seen: Vec::new() };
+        let mut w = SockWorld { l, l_addr, r_addr, r_peer, r_cmd: ctx, r_obs: orx, l_events: Vec::new(), r_seen: Vec::new(), accepted_r: Vec::new() };
         for x in conns {
             w.one(*x, &mut t).await;
         }
+        // existing connections were not disturbed by the later rejections: every accepted connection
+        // is still open at the end of the case
+        w.pump().await;
+        let disturbed = w.r_seen.iter().filter(|(k, id)| (*k == 2 || *k == 3) && w.accepted_r.contains(id)).count();
+        t.push(disturbed as u64);
         task.abort();
     });
     rt.shutdown_background();
